@@ -91,12 +91,12 @@ func readFaultFamily(es []entry, budget time.Duration) mc.Family {
 	}
 	return mc.Family{
 		Name: "read-fault-at-every-offset", Items: len(items), Budget: budget,
-		Rule: fmt.Sprintf("%d corpus inputs x a read fault (sentinel error) at EVERY byte offset k in 0..len (%d offsets) x 2 delivery styles (full reads up to k, one byte at a time) x {plain, seekable (fonts)}; item = block of %d offsets; non-trivial = the fault was delivered to the library", len(es), total, block),
+		Rule: fmt.Sprintf("%d corpus inputs x a read fault (sentinel error) at EVERY byte offset k in 0..len (%d offsets) x %d fault styles (full reads up to k then the error alone; one byte at a time; the error in the same call as the last good bytes; the same with 7-byte reads; a transient error reported once, alone or together with data, after which the reader carries on) x {plain, seekable (fonts)}; item = block of %d offsets; non-trivial = the fault was delivered to the library", len(es), total, len(faultStyles), block),
 		Body: func(c *mc.Ctx, item int) mc.Verdict {
 			e := es[items[item].e]
 			n := min(block, len(e.in.Data)+1-items[item].first)
 			k := items[item].first + c.Choose(n)
-			style := c.Choose(2)
+			style := c.Choose(len(faultStyles))
 			seek := false
 			if e.kind == "font" {
 				seek = c.Choose(2) == 1
@@ -104,9 +104,22 @@ func readFaultFamily(es []entry, budget time.Duration) mc.Family {
 			src := env.NewSource(e.in.Data)
 			src.FailAt = k
 			src.FailErr = env.ErrInjected
-			if style == 1 {
+			fs := faultStyles[style]
+			if fs.withData && fs.once && e.kind != "ps" && e.kind != "cmap" {
+				// A one-shot error that accompanies the very bytes which complete a
+				// request is dropped by io.ReadFull by contract; type1.Read's format
+				// sniffing, pfb.Decode and bufio (afm) are built on it.  "The reader
+				// fails at offset k" is read as a failure that persists for those;
+				// the interpreter's own scanner (ps, cmap) must keep even a one-shot one.
+				return mc.Pass("n/a:one-shot-error-with-data-through-io.ReadFull", false)
+			}
+			if fs.oneByte {
 				src.Decide = func(call, want, remaining int) (int, bool) { return 1, false }
 			}
+			if fs.chunk7 {
+				src.Decide = func(call, want, remaining int) (int, bool) { return 7, false }
+			}
+			src.FailWithData, src.FailOnce = fs.withData, fs.once
 			var r io.Reader = src
 			if seek {
 				r = env.SeekSource{Source: src}
@@ -114,8 +127,13 @@ func readFaultFamily(es []entry, budget time.Duration) mc.Family {
 			got := observe.Run(e.kind, r)
 			c.Steps(src.Calls)
 			name := e.kind + "/" + e.in.Name
-			desc := fmt.Sprintf("%s: read fault at offset %d of %d, style %d, seekable=%v", name, k, len(e.in.Data), style, seek)
-			if src.Faulted() {
+			desc := fmt.Sprintf("%s: read fault at offset %d of %d, style %q, seekable=%v", name, k, len(e.in.Data), fs.name, seek)
+			// An error that came together with the last bytes a request needed is
+			// dropped by io.ReadFull by contract; if the library then never reads
+			// again (it had all it needed, e.g. the PFB end marker) the fault was
+			// never in its way: treated like a fault that was not reached.
+			reached := src.Faulted() && !(got.Err == nil && fs.withData && !fs.once && src.CallsAfterFault == 0 && e.kind != "ps" && e.kind != "cmap")
+			if reached {
 				if got.Err == nil {
 					v := mc.Fail("C13:read-fault-swallowed:"+name, desc+": the reader returned the fault to the library but the call returned a result and no error")
 					v.Render = desc
@@ -139,6 +157,19 @@ func readFaultFamily(es []entry, budget time.Duration) mc.Family {
 		Describe: func(item int) string { e := es[items[item].e]; return e.kind + "/" + e.in.Name },
 		CrashKey: func(item int) string { e := es[items[item].e]; return "C13:crash:read:" + e.kind + "/" + e.in.Name },
 	}
+}
+
+var faultStyles = []struct {
+	name                            string
+	oneByte, chunk7, withData, once bool
+}{
+	{name: "full reads, error alone, persistent"},
+	{name: "one byte per read, error alone, persistent", oneByte: true},
+	{name: "error together with the last good bytes, persistent", withData: true},
+	{name: "7-byte reads, error together with data, persistent", chunk7: true, withData: true},
+	{name: "error alone, reported once, then the reader carries on", once: true},
+	{name: "error together with data, reported once, then the reader carries on", withData: true, once: true},
+	{name: "7-byte reads, error together with data, reported once", chunk7: true, withData: true, once: true},
 }
 
 func truncationFamily(es []entry, budget time.Duration) mc.Family {
